@@ -49,12 +49,17 @@ def rule_a(ctx):
     conds = b.conditions(pop)
     ok = False
     for c in conds:
-        if c.kind == "cmp" and c.data[0] == "==":
-            sides = [c.data[1], c.data[2]]
-            has_len = any(all(x[0] == "call" and x[2] == "std::collections::VecDeque::len" for x in sd) and sd for sd in sides)
-            has_cap = any(all(origin_proj_names(x)[1][-1:] == [("f", "capacity")] for x in sd) and sd for sd in sides)
-            if has_len and has_cap:
-                ok = True
+        def is_len(sd):
+            return bool(sd) and all(x[0] == "call" and x[2] == "std::collections::VecDeque::len" for x in sd)
+
+        def is_cap(sd):
+            return bool(sd) and all(origin_proj_names(x)[1][-1:] == [("f", "capacity")] for x in sd)
+
+        # `len == capacity` or the equivalent `len >= capacity` (len never exceeds capacity)
+        if c.kind == "cmp" and (
+                (c.data[0] in ("==", ">=") and is_len(c.data[1]) and is_cap(c.data[2])) or
+                (c.data[0] in ("==", "<=") and is_cap(c.data[1]) and is_len(c.data[2]))):
+            ok = True
     ctx.ob("buffer|evict-iff-full", ok and len([c for c in conds if c.kind == "cmp"]) == 1,
            "the oldest event is evicted exactly when len == capacity", [pop])
     # push unconditional within the open side, after the eviction decision, pushes the event parameter
